@@ -196,6 +196,9 @@ var Exprs = []string{
 	"(x + 1) * 2 / 3 % 4 - 5 == 0",
 	"b\"abc\" == r'raw' && s == \"\"\"tri\nple\"\"\"",
 	"x { y",
+	// blank lines inside the expression (two, and four: a clean-up of repeated line ends that runs once leaves some behind)
+	"x < 100 &&\n\n\n  y != \"k\"",
+	"x < 100 &&\n\n\n\n\n  y != \"k\"",
 	"", // an empty body is grammatical
 	// non-ASCII text inside string literals: two-, three- and four-byte characters (token offsets count runes, Go strings bytes)
 	"y == \"São Paulo\" || y == \"Zürich\"",
